@@ -775,6 +775,9 @@ class CallMixin:
             if cont.ty.k is TBottom:
                 self.write_place(st, pl, src, node)
                 return [(st, NONE)]
+            if src.ty == cont.ty and z3.is_true(z3.simplify(z3.Length(cont.ty.keys(cont.t)) == 0)):
+                self.write_place(st, pl, src, node)        # updating an empty dict
+                return [(st, NONE)]
             # result characterised extensionally (insertion order: old keys, then new ones in src order)
             res = fresh(cont.ty, 'upd')
             ck, sk, rk = cont.ty.keys(cont.t), src.ty.keys(src.t), cont.ty.keys(res.t)
@@ -786,6 +789,9 @@ class CallMixin:
                                       z3.Select(cont.ty.vals(cont.t), k))))
             st.assume(z3.PrefixOf(ck, rk))
             st.assume(z3.Implies(z3.Length(ck) == 0, rk == sk))
+            if src.ty == cont.ty:
+                # updating an EMPTY dict gives exactly the source's entries
+                st.assume(z3.Implies(z3.Length(ck) == 0, res.t == src.t))
             st.assume(z3.Implies(z3.Length(sk) == 0, rk == ck))
             self.write_place(st, pl, res, node)
             return [(st, NONE)]
